@@ -4,6 +4,7 @@ import (
 	"fmt"
 	"go/token"
 	"go/types"
+	"os"
 	"strings"
 
 	"golang.org/x/tools/go/ssa"
@@ -455,6 +456,7 @@ func c05(c *Ctx) {
 	r.Floor("C05.R6", 4)
 	checkValuesForwarded(p, r, "C05.R6", map[string]bool{"Return": true, "Returns": true}, "results")
 	checkSequenceNotDropped(p, r, "C05.R6")
+	checkFirstValueRegisters(p, r, "C05.R6")
 
 	// ---- R4 feeding the right list
 	when := p.NamedType("", "When")
@@ -753,5 +755,252 @@ func checkSequenceNotDropped(p *Prog, r *Report, rule string) {
 		}
 		r.Check(okAll, rule, "values of "+shortName(f)+" are dropped only when there are none", p.Pos(f.Pos()), "an early return without feeding is entailed len(values) == 0",
 			"the method gives up without recording anything for a non-empty list (e.g. for a single value): Returns(v) configures nothing and the call panics with 'no suitable condition' or falls through to another stub")
+	}
+}
+
+
+// whenRegisters: the When method m, called while a pending condition exists (the condition field is non-nil), appends that
+// condition to the condition list before it returns: for every return that is not on the "no pending condition" side, a
+// store list = append(list, <pending condition field>) has been passed.
+func whenRegisters(m *ssa.Function) (registers, hasPending bool) {
+	if m == nil || m.Blocks == nil {
+		return false, false
+	}
+	var stores []ssa.Instruction
+	var pendingFld *types.Var
+	eachInstr(m, func(i ssa.Instruction) {
+		st, ok := i.(*ssa.Store)
+		if !ok {
+			return
+		}
+		cl, ok := st.Val.(*ssa.Call)
+		if !ok {
+			return
+		}
+		bi, ok := cl.Call.Value.(*ssa.Builtin)
+		if !ok || bi.Name() != "append" || len(cl.Call.Args) != 2 {
+			return
+		}
+		if _, fv, ok := fieldRef(st.Addr); !ok || fv == nil {
+			return
+		}
+		// the appended element(s): append(list, x) passes x through a fresh one-element array
+		var elems []ssa.Value
+		if sl, ok := cl.Call.Args[1].(*ssa.Slice); ok {
+			if al, ok := sl.X.(*ssa.Alloc); ok {
+				for _, ref := range *al.Referrers() {
+					if ia, ok := ref.(*ssa.IndexAddr); ok {
+						for _, r2 := range *ia.Referrers() {
+							if st2, ok := r2.(*ssa.Store); ok && st2.Addr == ssa.Value(ia) {
+								elems = append(elems, st2.Val)
+							}
+						}
+					}
+				}
+			}
+		}
+		for _, e := range elems {
+			for _, a := range origins(e) {
+				if _, fv, ok := fieldRef(a.V); ok && fv != nil {
+					pendingFld = fv
+					stores = append(stores, st)
+				}
+			}
+		}
+	})
+	// does the method test a pointer field against nil at all?
+	var tested *types.Var
+	eachInstr(m, func(i ssa.Instruction) {
+		if bo, ok := i.(*ssa.BinOp); ok && (bo.Op == token.EQL || bo.Op == token.NEQ) && (isNilConst(bo.X) || isNilConst(bo.Y)) {
+			x := bo.X
+			if isNilConst(x) {
+				x = bo.Y
+			}
+			if _, fv, ok := fieldRef(x); ok && fv != nil {
+				switch fv.Type().Underlying().(type) {
+				case *types.Pointer, *types.Interface:
+					tested = fv
+				}
+			}
+		}
+	})
+	if tested == nil && pendingFld == nil {
+		return false, false
+	}
+	if pendingFld == nil {
+		return false, true
+	}
+	isStore := func(j ssa.Instruction) bool {
+		for _, s := range stores {
+			if s == j {
+				return true
+			}
+		}
+		return false
+	}
+	for _, ret := range returnsOf(m) {
+		if passedBefore(m, ret, isStore, nil) {
+			continue
+		}
+		// allowed only where the pending condition is known to be nil
+		nilSide := false
+		for _, g := range guardsAt(ret.Block()) {
+			bo, ok := g.Cond.(*ssa.BinOp)
+			if !ok || !(isNilConst(bo.X) || isNilConst(bo.Y)) {
+				continue
+			}
+			x := bo.X
+			if isNilConst(x) {
+				x = bo.Y
+			}
+			if _, fv, ok := fieldRef(x); ok && fv == pendingFld {
+				if (bo.Op == token.EQL && g.Pol) || (bo.Op == token.NEQ && !g.Pol) {
+					nilSide = true
+				}
+			}
+		}
+		if !nilSide {
+			return false, true
+		}
+	}
+	return true, true
+}
+
+// checkFirstValueRegisters: C05.R6 clause — in a When method that spreads its variadic values over the single-value
+// methods, the value at position 0 goes through a method that registers the pending condition (Return), not through one
+// that only adds a further result to it (AndReturn): otherwise When(x).Returns(v) records v on a condition that never
+// enters the list, and the stub behaves as if the condition had not been given.
+func checkFirstValueRegisters(p *Prog, r *Report, rule string) {
+	when := p.NamedType("", "When")
+	if when == nil {
+		return
+	}
+	for _, f := range p.FuncsIn("") {
+		if f.Blocks == nil || f.Signature.Recv() == nil || !f.Signature.Variadic() || f.Object() == nil || !f.Object().Exported() {
+			continue
+		}
+		if pt, ok := f.Signature.Recv().Type().(*types.Pointer); !ok || pt.Elem() != types.Type(when) {
+			continue
+		}
+		vp := f.Params[len(f.Params)-1]
+		// the element index in use
+		var idxs []ssa.Value
+		eachInstr(f, func(j ssa.Instruction) {
+			if ia, ok := j.(*ssa.IndexAddr); ok && resolveLocal(ia.X) == ssa.Value(vp) {
+				idxs = append(idxs, ia.Index)
+			}
+		})
+		if len(idxs) == 0 {
+			continue
+		}
+		isVP := func(v ssa.Value) bool { return v == ssa.Value(vp) }
+		type feed struct {
+			call ssa.CallInstruction
+			cal  *ssa.Function
+		}
+		var feeds []feed
+		eachInstr(f, func(j ssa.Instruction) {
+			ci, ok := j.(ssa.CallInstruction)
+			if !ok {
+				return
+			}
+			cal := staticCallee(ci.Common())
+			if cal == nil || cal == f || relPkg(cal) != "" || cal.Signature.Recv() == nil || !recvIs(cal, when) {
+				return
+			}
+			for _, a := range ci.Common().Args[1:] {
+				if dependsOn(a, isVP) {
+					feeds = append(feeds, feed{ci, cal})
+					return
+				}
+			}
+		})
+		if os.Getenv("GOOMVET_DEBUG") != "" {
+			for _, fd := range feeds {
+				reg, pend := whenRegisters(fd.cal)
+				fmt.Fprintln(os.Stderr, "C05 first-value feed", fd.cal, reg, pend)
+			}
+		}
+		if len(feeds) < 2 {
+			continue // a single feeding method: nothing to tell apart
+		}
+		anyReg, anyPlain := false, false
+		for _, fd := range feeds {
+			reg, pend := whenRegisters(fd.cal)
+			if !pend {
+				continue
+			}
+			if reg {
+				anyReg = true
+			} else {
+				anyPlain = true
+			}
+		}
+		if !anyReg || !anyPlain {
+			continue // the methods fed do not differ in registering
+		}
+		handled := false
+		okAll := true
+		for _, fd := range feeds {
+			reg, pend := whenRegisters(fd.cal)
+			if !pend {
+				continue
+			}
+			// can this call see position 0?
+			admits := 1 // 1 yes, 0 no, -1 unknown
+			for _, g := range guardsAt(fd.call.Block()) {
+				bo, ok := g.Cond.(*ssa.BinOp)
+				if !ok {
+					continue
+				}
+				isIdx := false
+				for _, ix := range idxs {
+					if bo.X == ix {
+						isIdx = true
+					}
+				}
+				c, isC := constInt(bo.Y)
+				if !isIdx || !isC {
+					if dependsOn(bo.X, isVP) || dependsOn(bo.Y, isVP) {
+						continue // a test about the list (its length), not about the position
+					}
+					if admits == 1 {
+						admits = -1
+					}
+					continue
+				}
+				var holds bool
+				switch bo.Op {
+				case token.EQL:
+					holds = 0 == c
+				case token.NEQ:
+					holds = 0 != c
+				case token.LSS:
+					holds = 0 < c
+				case token.LEQ:
+					holds = 0 <= c
+				case token.GTR:
+					holds = 0 > c
+				case token.GEQ:
+					holds = 0 >= c
+				default:
+					continue
+				}
+				if holds != g.Pol {
+					admits = 0
+				}
+			}
+			if admits == 1 {
+				handled = true
+				if !reg {
+					okAll = false
+				}
+			}
+			if admits == -1 {
+				handled = true
+			}
+		}
+		r.Check(okAll && handled, rule, "first value of "+shortName(f)+" registers the pending condition", p.Pos(f.Pos()), "position 0 goes through the registering method",
+			"the value at position 0 is handed to a method that only adds a result to the pending condition without entering it into the condition list (the registering and the adding method are exchanged): When(args).Returns(v) leaves the condition unregistered and the call falls through to the default or panics")
 	}
 }
